@@ -3,6 +3,7 @@ package goat
 import (
 	"context"
 	"fmt"
+	"math"
 	"reflect"
 	"strconv"
 	"strings"
@@ -647,6 +648,10 @@ func parseGrpcTimeout(timeout string) (time.Duration, bool) {
 	if err != nil {
 		return 0, false
 	}
+	// The wire format is digits only; ParseInt also takes a sign.
+	if sign := timeout[0]; sign == '-' || sign == '+' {
+		return 0, false
+	}
 	getUnit := func(suffix byte) time.Duration {
 		switch suffix {
 		case 'H':
@@ -668,6 +673,10 @@ func parseGrpcTimeout(timeout string) (time.Duration, bool) {
 	unit := getUnit(suffix)
 	if unit == 0 {
 		return 0, false
+	}
+	if val > math.MaxInt64/int64(unit) {
+		// saturate instead of wrapping around to a short or negative timeout
+		return time.Duration(math.MaxInt64), true
 	}
 
 	return time.Duration(val) * unit, true
